@@ -188,70 +188,76 @@ class M(Model):
         return {"state": st, "reward": reward, "last": last}
 
     # ---------------------------------------------------------------------------------------- C10
-    def _exact_cover(self, blocks):
-        """Bounded backtracking: fill the first empty cell (row-major) with some unused block in some
-        rotation whose first cell (row-major) lands there.  -> True / False / None (budget)."""
+    def _exact_cover(self, blocks, budget=None):
+        """Bounded backtracking over the placements the ACTION SPACE can express (block, rotation,
+        top-left corner of the rotated (3, 3) array at row <= R-3, col <= C-3): always fill the first
+        empty cell (row-major) with an unused block one of whose placements has its first cell there.
+        -> (True, actions) / (False, None) / (None, None) when the node budget is exhausted."""
         R, C = self.R, self.C
-        pats = []
-        for i in range(len(blocks)):
-            seen, lst = set(), []
+        budget = (COVER_BUDGET if len(blocks) <= 9 else COVER_BUDGET // 5) if budget is None else budget
+        n = len(blocks)
+        shape_class = {}
+        klass = []
+        for i in range(n):
+            key = (np.asarray(blocks[i]) != 0).tobytes()
+            klass.append(shape_class.setdefault(key, len(shape_class)))
+        bucket = [[] for _ in range(R * C)]
+        for i in range(n):
+            seen = set()
             for k in range(4):
                 p = rot(blocks[i], k) != 0
                 rc = np.argwhere(p)
                 if rc.size == 0:
                     continue
-                anchor = rc[0]                      # first cell in row-major order
-                cells = tuple(map(tuple, (rc - anchor).tolist()))
-                if cells not in seen:
-                    seen.add(cells)
-                    lst.append(cells)
-            pats.append(lst)
-        # identical blocks are interchangeable: try only the first unused one of each shape class
-        klass = [frozenset(p) for p in pats]
-        occ = np.zeros((R, C), bool)
-        used = [False] * len(blocks)
+                for r in range(R - 2):
+                    for c in range(C - 2):
+                        m = 0
+                        for dr, dc in rc.tolist():
+                            m |= 1 << ((r + dr) * C + (c + dc))
+                        if m in seen:
+                            continue
+                        seen.add(m)
+                        low = (m & -m).bit_length() - 1
+                        bucket[low].append((i, m, (i, k, r, c)))
+        full = (1 << (R * C)) - 1
+        used = [False] * n
         nodes = [0]
+        sol = []
 
-        def first_empty():
-            flat = np.flatnonzero(~occ.reshape(-1))
-            return None if flat.size == 0 else divmod(int(flat[0]), C)
-
-        def rec():
-            pos = first_empty()
-            if pos is None:
+        def rec(occ):
+            if occ == full:
                 return all(used)
-            r0, c0 = pos
+            cell = ((occ + 1) & ~occ).bit_length() - 1
             tried = set()
-            for i in range(len(blocks)):
-                if used[i] or klass[i] in tried:
+            for i, m, act in bucket[cell]:
+                if used[i] or (m & occ):
                     continue
-                tried.add(klass[i])
-                for cells in pats[i]:
-                    nodes[0] += 1
-                    if nodes[0] > COVER_BUDGET:
-                        return None
-                    ok = True
-                    for dr, dc in cells:
-                        rr, cc = r0 + dr, c0 + dc
-                        if not (0 <= rr < R and 0 <= cc < C) or occ[rr, cc]:
-                            ok = False
-                            break
-                    if not ok:
-                        continue
-                    for dr, dc in cells:
-                        occ[r0 + dr, c0 + dc] = True
-                    used[i] = True
-                    res = rec()
-                    used[i] = False
-                    for dr, dc in cells:
-                        occ[r0 + dr, c0 + dc] = False
-                    if res is None or res:
-                        return res
+                t = (klass[i], m)
+                if t in tried:
+                    continue
+                tried.add(t)
+                nodes[0] += 1
+                if nodes[0] > budget:
+                    return None
+                used[i] = True
+                sol.append(act)
+                res = rec(occ | m)
+                if res:
+                    return True
+                sol.pop()
+                used[i] = False
+                if res is None:
+                    return None
             return False
 
-        res = rec()
+        res = rec(0)
         STATS["cover_nodes"] += nodes[0]
-        return res
+        return (res, list(sol)) if res else (res, None)
+
+    def solution_actions(self, s0):
+        """Actions (block, rotation, row, col) that tile the grid from the reset state, or None."""
+        res, sol = self._exact_cover(np.asarray(s0.blocks).astype(np.int64))
+        return [np.asarray(a, np.int32) for a in sol] if res else None
 
     def validate_instance(self, s0):
         out = []
@@ -285,13 +291,14 @@ class M(Model):
             out.append(("action_mask has the wrong shape", str(am.shape)))
         if out:
             return out
-        res = self._exact_cover(blocks)
+        res, _ = self._exact_cover(blocks)
         if res is None:
             STATS["cover_inconclusive"] += 1
         elif res:
             STATS["cover_found"] += 1
         else:
-            out.append(("the blocks cannot tile the grid (exact-cover search exhausted)", f"blocks {blocks.tolist()}"))
+            out.append(("no sequence of actions can tile the grid with the generated blocks (exhaustive search over "
+                        "all placements of the action space)", f"blocks {blocks.tolist()}"))
         return out
 
     # ---------------------------------------------------------------------------------------- C12
